@@ -237,6 +237,8 @@ def wf_msg(mtype: str, tree, keep_seq: bool) -> bool:
     for n in tree:
         if n[1] in HEADER_TAGS and not (n[1] == "34" and keep_seq):
             return False
+    # what goes on the wire: 34/52/49/56 are taken from the session, not from the message
+    tree = [n for n in tree if n[1] not in SKIP_TAGS]
     if not wf_cont(tree, tbl, None, [], in_group=False):
         return False
     # the CheckSum tag closes everything: 10 must not be a member of a group open at the end
